@@ -410,6 +410,29 @@ def tokenizer_outcome(data: bytes):
     return {"tree": t}
 
 
+# ----------------------------------------------------------------------------- lxml recovery mode only
+LEAF_TEXT = re.compile(rb">([^<>]+)</")
+
+
+def lxml_only_faults(rng, xml: bytes):
+    """(kind, bytes, tok) for the tokenizer outcomes only libxml2's recovery mode has.
+    `stopped`: the declaration says us-ascii and a byte >= 0x80 stands in the content of the root element —
+    libxml2 raises a fatal encoding error there and delivers no further events (the root never ends).
+    `text_decode`: a reference to a surrogate code point in character data — recovery lets it through and
+    lxml cannot decode the text.  Both are decided here from the bytes, without xsdata."""
+    body = xml[xml.find(b"?>") + 2:] if xml.startswith(b"<?xml") else xml
+    spots = list(LEAF_TEXT.finditer(body))
+    if not spots:
+        return
+    m = rng.choice(spots)
+    for enc in (b"us-ascii", b"ASCII"):
+        data = b'<?xml version="1.0" encoding="' + enc + b'"?>' + body[: m.start(1)] + "é名".encode() + body[m.start(1):]
+        yield "ascii_stop", data, "stopped"
+    for ref in (b"&#xD800;", b"&#57343;", b"&#xdbff;"):
+        m = rng.choice(spots)
+        yield "surrogate_text", body[: m.end(1)] + ref + body[m.end(1):], "text_decode"
+
+
 # ----------------------------------------------------------------------------- xinclude
 XI_NS = "http://www.w3.org/2001/XInclude"
 
